@@ -28,6 +28,7 @@ func rulesC17(c *Ctx) {
 	ruleFoundFlag(c)
 	ruleIgnoreFields(c)
 	ruleCountHelpers(c)
+	ruleClientErrorConversion(c)
 	ruleCachedDelegates(c)
 	ruleGetEntriesLookups(c)
 	ruleStatusCompare(c)
@@ -338,6 +339,19 @@ func ruleIgnoreFields(c *Ctx) {
 	c.check(len(bad) == 0, rule, fi.Name, "ignored names are fields of client.OpResult", c.P.pos(fi.Decl.Pos()), "all literals resolve to fields", fmt.Sprintf("%v are not fields of client.OpResult: IgnoreFields would panic or ignore nothing", bad))
 	// the option predicates test for their own option type
 	for _, t := range []struct{ fn, typ string }{{"hasIgnoreOperationID", "ignoreOpID"}, {"hasIncludeServerError", "includeServerError"}} {
+		if c.P.Func("chk", "", t.fn) == nil {
+			// written in line in its caller and folded (foldprobes.go): it tests for its own option by construction
+			inl := false
+			for f, typ := range foldedProbes {
+				if f.Name() == t.fn && typ == t.typ {
+					inl = true
+				}
+			}
+			if inl {
+				c.check(true, rule, "chk."+t.fn, "recognises its own option", "-", "in-line loop asserting *"+t.typ, "")
+				continue
+			}
+		}
 		pf := c.need("chk", "", t.fn)
 		if pf == nil {
 			continue
@@ -553,6 +567,7 @@ func ruleGetEntriesLookups(c *Ctx) {
 		c.vanished(rule, fi.Name, "index / lookup switches", fmt.Sprintf("found %d type switches, want 2 (index, lookup)", len(switches)))
 		return
 	}
+	keyBad := ""
 	// which cache field does each kind use in each switch
 	fieldOf := func(ts *ast.TypeSwitchStmt) map[string]string {
 		out := map[string]string{}
@@ -568,6 +583,9 @@ func ruleGetEntriesLookups(c *Ctx) {
 						if ie, ok := n.(*ast.IndexExpr); ok {
 							if se, ok := ast.Unparen(ie.X).(*ast.SelectorExpr); ok {
 								out[k.Table] = se.Sel.Name
+								if why := keyTransformed(info, ie.Index); why != "" && keyBad == "" {
+									keyBad = fmt.Sprintf("the %s cache %q is accessed under %s, %s: two different keys can meet in one slot, so an entry that was not returned is found", k.Table, se.Sel.Name, types.ExprString(ie.Index), why)
+								}
 							}
 						}
 						return true
@@ -578,6 +596,7 @@ func ruleGetEntriesLookups(c *Ctx) {
 		return out
 	}
 	a, b := fieldOf(switches[0]), fieldOf(switches[1])
+	c.check(keyBad == "", rule, fi.Name, "caches are accessed under the entry's key as returned", c.P.pos(fi.Decl.Pos()), "no narrowing conversion or transforming call in an index expression", keyBad)
 	bad := ""
 	seenFld := map[string]string{}
 	for _, k := range ks {
@@ -1583,4 +1602,115 @@ func comparesWithParam(info *types.Info, fd *ast.FuncDecl, e ast.Expr, param typ
 		return false
 	}
 	return aliasRootObj(info, fd, be.X) == param || aliasRootObj(info, fd, be.Y) == param
+}
+
+// CLIENT-ERROR-CONVERSION — the helper behind the error matchers hands back the caller's own *client.ClientErr and
+// nothing else: every returning path returns the value obtained by asserting the error to *client.ClientErr on a path
+// where the assertion succeeded, every other path is fatal, and package chk never builds a ClientErr of its own (a
+// fabricated one — e.g. "one receive error" made from a nil error — lets a count matcher pass although no error exists).
+func ruleClientErrorConversion(c *Ctx) {
+	const rule = "CLIENT-ERROR-CONVERSION"
+	fi := c.need("chk", "", "clientError")
+	if fi == nil {
+		return
+	}
+	info := fi.Pkg.TypesInfo
+	ps := paramObjs(info, fi.Decl)
+	if len(ps) < 2 {
+		c.undecided(rule, fi.Name, "parameters", c.P.pos(fi.Decl.Pos()), "expected (t, err)")
+		return
+	}
+	errP := ps[len(ps)-1]
+	// the assertion err.(*client.ClientErr)
+	var valObj, okObj types.Object
+	ast.Inspect(fi.Decl.Body, func(n ast.Node) bool {
+		as, ok := n.(*ast.AssignStmt)
+		if !ok || len(as.Lhs) != 2 || len(as.Rhs) != 1 {
+			return true
+		}
+		ta, ok := ast.Unparen(as.Rhs[0]).(*ast.TypeAssertExpr)
+		if !ok || ta.Type == nil || objOfIdent(info, ta.X) != errP {
+			return true
+		}
+		if pt, ok := info.TypeOf(ta.Type).(*types.Pointer); ok && isNamed(pt.Elem(), modPath+"/client", "ClientErr") {
+			valObj, okObj = objOfIdent(info, as.Lhs[0]), objOfIdent(info, as.Lhs[1])
+		}
+		return true
+	})
+	paths, pe := enumFunc(fi, func(ast.Node) []Event { return nil }, nil)
+	bad := ""
+	nRet, nFatal := 0, 0
+	if pe.overflow || len(pe.unsup) > 0 || valObj == nil || okObj == nil {
+		bad = "clientError does not assert its error to *client.ClientErr (or its paths could not be enumerated)"
+	}
+	for _, p := range paths {
+		if bad != "" {
+			break
+		}
+		f := factsAfter(info, p, -1, len(p.Events))
+		switch p.End {
+		case "panic":
+			nFatal++
+			if f.Obj(okObj) == +1 {
+				bad = "fatal although the error is a *client.ClientErr: " + p.describe(c.P)
+			}
+		case "return":
+			nRet++
+			rs, _ := p.EndNode.(*ast.ReturnStmt)
+			if rs == nil || len(rs.Results) != 1 || objOfIdent(info, rs.Results[0]) != valObj || f.Obj(okObj) != +1 {
+				bad = "a path returns something other than the caller's own *client.ClientErr (the asserted value, on a path where the assertion succeeded): " + p.describe(c.P)
+			}
+		default:
+			bad = "a path leaves clientError without a value: " + p.describe(c.P)
+		}
+	}
+	c.Sites += len(paths)
+	c.check(bad == "" && nRet >= 1 && nFatal >= 1, rule, fi.Name, "returns the caller's own ClientErr or is fatal", c.P.pos(fi.Decl.Pos()), fmt.Sprintf("%d returning, %d fatal paths", nRet, nFatal), bad)
+	// nobody in chk builds a ClientErr
+	var lits []string
+	for _, g := range c.P.AllFuncs("chk") {
+		if g.Decl.Body == nil {
+			continue
+		}
+		ginfo := g.Pkg.TypesInfo
+		ast.Inspect(g.Decl.Body, func(n ast.Node) bool {
+			if cl, ok := n.(*ast.CompositeLit); ok {
+				if tv, ok := ginfo.Types[cl]; ok && isNamed(tv.Type, modPath+"/client", "ClientErr") {
+					lits = append(lits, g.Name+" ("+c.P.pos(cl.Pos())+")")
+				}
+			}
+			return true
+		})
+	}
+	c.check(len(lits) == 0, rule, "chk", "no ClientErr is fabricated", "-", "no composite literal of client.ClientErr in package chk", "package chk builds a client.ClientErr of its own in "+strings.Join(lits, ", ")+": the matchers would count errors the client never reported")
+}
+
+// keyTransformed: the index expression narrows an integer or passes the key through a function that is not a getter
+// of a protobuf message ("" when the key is used as it is).
+func keyTransformed(info *types.Info, e ast.Expr) string {
+	why := ""
+	ast.Inspect(e, func(n ast.Node) bool {
+		call, ok := n.(*ast.CallExpr)
+		if !ok {
+			return true
+		}
+		if tv, ok := info.Types[call.Fun]; ok && tv.IsType() && len(call.Args) == 1 {
+			to, ok1 := tv.Type.Underlying().(*types.Basic)
+			from, ok2 := info.TypeOf(call.Args[0]).Underlying().(*types.Basic)
+			if ok1 && ok2 && to.Info()&types.IsInteger != 0 && from.Info()&types.IsInteger != 0 {
+				if sz := (types.StdSizes{WordSize: 8, MaxAlign: 8}); sz.Sizeof(to) < sz.Sizeof(from) {
+					why = "a conversion from " + from.Name() + " to the narrower " + to.Name()
+				}
+			}
+			return true
+		}
+		if f, ok := calleeObj(info, call).(*types.Func); ok {
+			sig := f.Type().(*types.Signature)
+			if sig.Recv() == nil || !strings.HasPrefix(f.Name(), "Get") {
+				why = "passed through " + f.Name() + "()"
+			}
+		}
+		return true
+	})
+	return why
 }
